@@ -33,7 +33,7 @@ def programs(ctx: Ctx, n: int):
     fam = c17.idiom_family()
     frng = ctx.rng("idioms")
     if ctx.quick:
-        fam = frng.sample(fam, 160)
+        fam = frng.sample(fam, 300)
     for text in fam:
         try:
             m = progs.parse(text)
